@@ -21,6 +21,7 @@ type sDoc struct{ Kind, Lead string }
 type sTok struct {
 	Sep     bool
 	F, D, K int
+	C       bool // printed with the leading comment of its document
 }
 
 type sVec struct {
@@ -32,7 +33,8 @@ type sVec struct {
 }
 
 var streamExpr = map[string]string{"id": ".", "one": ".v", "two": ".v, .w", "sel": "select(.k == 1) | .v", "fi": "file_index", "di": "document_index",
-	"fn": "filename", "srt": "select(.l) | .l | sort | .[0]", "var": ".v as $x | $x"}
+	"fn": "filename", "srt": "select(.l) | .l | sort | .[0]", "var": ".v as $x | $x",
+	"obj": `{"v": .v}`, "objfi": `{"v": .v} | file_index`, "objfn": `{"v": .v} | filename`, "coldi": `[.v] | document_index`}
 
 func renderDoc(d sDoc, f, di int) string {
 	lead := ""
@@ -81,11 +83,16 @@ func expectedLines(x, kind string, f, d, k int, filename string) []string {
 		return []string{"null"}
 	case "var", "sel":
 		return []string{id + "v"}
-	case "fi":
+	case "obj":
+		if kind == "map" {
+			return []string{"v: " + id + "v"}
+		}
+		return []string{"v: null"}
+	case "fi", "objfi":
 		return []string{fmt.Sprint(f)}
-	case "di":
+	case "di", "coldi":
 		return []string{fmt.Sprint(d)}
-	case "fn":
+	case "fn", "objfn":
 		if filename == "" {
 			return nil
 		}
@@ -117,11 +124,16 @@ func runYq(dir string, args ...string) (stdout string, code int, err error) {
 	return out.String(), 0, nil
 }
 
-// tokenise stdout into "---" separators and content lines (comment and blank lines are presentation, dropped)
-func tokeniseOut(s string) []string {
+// tokenise stdout into "---" separators and content lines (comment and blank lines are presentation, dropped - except the
+// leading comments of map documents, which name their document: keep lists them)
+func tokeniseOut(s string, keep ...map[string]bool) []string {
 	var toks []string
 	for _, l := range strings.Split(s, "\n") {
 		t := strings.TrimRight(l, " ")
+		if len(keep) > 0 && keep[0][t] {
+			toks = append(toks, t)
+			continue
+		}
 		if t == "" || strings.HasPrefix(strings.TrimSpace(t), "#") {
 			continue
 		}
@@ -140,7 +152,8 @@ func parseToks(x interface{}) []sTok {
 	}
 	for _, e := range x.([]interface{}) {
 		m := e.(M)
-		out = append(out, sTok{Sep: m["sep"].(bool), F: int(num(m["f"])), D: int(num(m["d"])), K: int(num(m["k"]))})
+		c, _ := m["c"].(bool)
+		out = append(out, sTok{Sep: m["sep"].(bool), F: int(num(m["f"])), D: int(num(m["d"])), K: int(num(m["k"])), C: c})
 	}
 	return out
 }
@@ -202,12 +215,16 @@ func checkC10(rc *Run) error {
 				kinds := map[[2]int]string{}
 				ndocs := 0
 				hasCommentOnly := false
+				leadOf := map[string]bool{} // the leading comments of map documents: each is printed with its own document only
 				for fi, f := range v.Files {
 					name := fmt.Sprintf("f%d.yml", fi)
 					var sb strings.Builder
 					for di, d := range f {
 						sb.WriteString(renderDoc(d, fi, di))
 						kinds[[2]int{fi, di}] = d.Kind
+						if d.Kind == "map" && (d.Lead == "sepc" || d.Lead == "c") {
+							leadOf[fmt.Sprintf("# lead f%dd%d", fi, di)] = true
+						}
 						ndocs++
 						if d.Kind == "comment" {
 							hasCommentOnly = true // zero YAML documents; eval keeps it as a blank node, eval-all does not
@@ -228,6 +245,9 @@ func checkC10(rc *Run) error {
 						kind = "none"
 					} else {
 						fn = fmt.Sprintf("f%d.yml", t.F)
+					}
+					if t.C {
+						want = append(want, fmt.Sprintf("# lead f%dd%d", t.F, t.D))
 					}
 					want = append(want, expectedLines(v.X, kind, t.F, t.D, t.K, fn)...)
 				}
@@ -251,7 +271,7 @@ func checkC10(rc *Run) error {
 					rc.Add("machinery_run_errors", 1)
 					continue
 				}
-				got := tokeniseOut(out)
+				got := tokeniseOut(out, leadOf)
 				if code != 0 || strings.Join(got, "\n") != strings.Join(want, "\n") {
 					out2, code2, _ := runYq(dir, args...)
 					if out2 != out || code2 != code {
@@ -267,6 +287,9 @@ func checkC10(rc *Run) error {
 						kind = "missing-separator"
 					} else if len(got) != len(want) {
 						kind = "result-count"
+						if strings.Join(tokeniseOut(out), "\n") == strings.Join(tokeniseOut(strings.Join(want, "\n")), "\n") {
+							kind = "leading-comment-of-another-document"
+						}
 					}
 					fp := fmt.Sprintf("stream-%s:%s:files=%d:N=%v", kind, v.X, len(v.Files), v.NoSep)
 					inputs := M{}
@@ -316,7 +339,7 @@ func checkC10(rc *Run) error {
 					mu.Lock()
 					eaCompared++
 					mu.Unlock()
-					if err == nil && (codeEa != code || strings.Join(tokeniseOut(outEa), "\n") != strings.Join(got, "\n")) {
+					if err == nil && (codeEa != code || strings.Join(tokeniseOut(outEa, leadOf), "\n") != strings.Join(got, "\n")) {
 						rc.Report(fmt.Sprintf("ea-differs-from-eval:%s", v.X), fmt.Sprintf("yq ea %s: %q, yq eval: %q", strings.Join(args, " "), tokeniseOut(outEa), got),
 							M{"machine": "Stream", "concrete": M{"argv": append([]string{"yq"}, eaArgs...)}, "expected": got, "observed": tokeniseOut(outEa)})
 					}
